@@ -8,7 +8,10 @@ Oracle: criteria evaluated on the wrap-delimited segments of the all-cycles part
 import itertools
 import numpy as np
 
-from ..engine.explore import Outcome
+from ..engine.explore import Outcome, Refill, Holder
+
+_refill = Refill()
+_holder = Holder()
 from ..engine import enum
 from .c12 import runs_of
 
@@ -180,14 +183,20 @@ def check_case(case):
                 continue
             try:
                 if mask is None:
-                    got = get_cycle_vector(phase.copy(), return_good=rg, phase_step=STEP, phase_edge=edge)
+                    ph_in = _refill.primed(phase, 'phase', lambda b_: get_cycle_vector(b_, return_good=rg, phase_step=STEP, phase_edge=edge))
+                    got = get_cycle_vector(ph_in, return_good=rg, phase_step=STEP, phase_edge=edge)
                 else:
-                    got = get_cycle_vector(phase.copy(), return_good=rg, mask=mask.copy(), phase_step=STEP, phase_edge=edge)
+                    ph_in = _refill(phase, 'phase')
+                    got = get_cycle_vector(ph_in, return_good=rg, mask=_refill(mask, 'mask'), phase_step=STEP, phase_edge=edge)
             except Exception as e:
                 viols.append(('raise:%s:mask=%s' % (type(e).__name__, mask is not None),
                               '%s mask=%s good=%s raised %r' % (desc, None if mask is None else mask.tolist(), rg, e)))
                 continue
             trans += 1
+            for m_ in _holder.swap(got, 'get_cycle_vector %s return_good=%s' % (desc, rg)):
+                viols.append(('earlier-result-changed', m_))
+            if not np.array_equal(ph_in, phase):
+                viols.append(('input-modified', '%s: the phase array was changed' % desc))
             got = np.asarray(got)[:, 0]
             keep = []
             for (a, b), g in zip(segs, good):
